@@ -1,6 +1,7 @@
 import CuqiVerif.Model.Proto
 import CuqiVerif.Model.C13
 import CuqiVerif.Model.C13_state
+import CuqiVerif.Model.C13_ctor
 open CuqiVerif CuqiVerif.Proto CuqiVerif.C13
 
 /-! Line-protocol driver for the C13 model.  Arrays travel as two tokens `shape data`
@@ -125,7 +126,91 @@ def runStepObj : StepObj → List String → Option (List String)
     let rest ← runStepObj o' ops
     some (out :: rest)
 
+/-! ### constructor glue (`Model/C13_ctor.lean`) -/
+
+partial def parseDimArg (s : String) : Option DimArg :=
+  if s = "N" then some .none
+  else if s = "o" then some .other
+  else if s.startsWith "i" then (s.drop 1).toString.toInt?.map DimArg.int
+  else if s.startsWith "t" then (parseDimArg (s.drop 1).toString).map DimArg.tuple1
+  else if s.startsWith "T" then (s.drop 1).toString.toNat?.map DimArg.tupleN
+  else if s.startsWith "l" then (parseVec (s.drop 1).toString).map DimArg.list
+  else if s.startsWith "d" then (s.drop 1).toString.toNat?.map DimArg.nd
+  else none
+
+def fmtOptShape : Option (List Nat) → String
+  | some sh => fmtNatList sh
+  | none => "None"
+
+def fmtOptNat : Option Nat → String
+  | some n => toString n
+  | none => "None"
+
+def fmtShapes (sh : Shapes) : String :=
+  s!"par={fmtOptShape sh.parShape} pardim={fmtOptNat sh.parDim} fun={fmtOptShape sh.funShape} fundim={fmtOptNat sh.funDim}"
+
+def fmtOptGrid : Option (List Rat) → String
+  | some g => fmtVec g
+  | none => "None"
+
+def ctor1dOut (a : DimArg) : String :=
+  match cont1DCtor a with
+  | none => "err"
+  | some g => s!"grid={fmtOptGrid g} {fmtShapes (cont1DShapes g)}"
+
+def ctorStep : List String → Option String
+  | ["ctor1d", a] => (parseDimArg a).map ctor1dOut
+  | ["ctor2d", a] => do
+    let g ← (match a.splitOn ":" with
+      | ["N"] => some Grid2Arg.none
+      | ["w"] => some Grid2Arg.wrongLen
+      | ["n"] => some Grid2Arg.noLen
+      | ["p", x, y] => do some (Grid2Arg.pair (← parseDimArg x) (← parseDimArg y))
+      | _ => none)
+    match cont2DCtor g with
+    | none => some "err"
+    | some none => some s!"grid=None {fmtShapes ((cont2DShapes none).getD ⟨none, none, none, none⟩)}"
+    | some (some (g0, g1)) =>
+      some s!"grid={fmtOptGrid g0};{fmtOptGrid g1} {match cont2DShapes (some (g0, g1)) with | some sh => fmtShapes sh | none => "shapes-err"}"
+  | ["ctorimg", sh, o, v] => do
+    let sh ← parseNatList sh
+    let v ← parseBool v
+    match imageCtor sh o v with
+    | none => some "err"
+    | some ob => some (fmtShapes ob.shapes)
+  | ["ctorimg", sh, o, v, op, xs, xd] => do
+    let sh ← parseNatList sh
+    let v ← parseBool v
+    let x ← parseArr xs xd
+    match imageCtor sh o v with
+    | none => some "err"
+    | some ob =>
+      match op with
+      | "par2fun" => some (match ob.par2fun x with | some y => fmtArr y | none => "raise")
+      | "fun2par" => some (match ob.fun2par x with | some y => fmtArr y | none => "raise")
+      | _ => none
+  | ["ctordisc", a] => do
+    let va ← (if a = "o" then some VarArg.other else if a = "x" then some VarArg.listOther
+      else if a.startsWith "i" then (a.drop 1).toString.toInt?.map VarArg.int
+      else if a.startsWith "s" then (a.drop 1).toString.toNat?.map fun k => VarArg.strs ((List.range k).map fun i => "n" ++ toString i)
+      else none)
+    match variablesOf va with
+    | none => some "err"
+    | some vs => some s!"vars={if vs.isEmpty then "_" else ",".intercalate vs} {fmtShapes (discreteShapes vs)}"
+  | ["defgeom", k, sh] => do
+    let sh ← parseNatList sh
+    match k with
+    | "S" => some (ctor1dOut (samplesDefaultArg sh))
+    | "A" => some (match carrDefaultArg sh with | some a => ctor1dOut a | none => "err")
+    | _ => none
+  | _ => none
+
 def step : List String → String
+  | "ctor1d" :: r => (ctorStep ("ctor1d" :: r)).getD "bad-op"
+  | "ctor2d" :: r => (ctorStep ("ctor2d" :: r)).getD "bad-op"
+  | "ctorimg" :: r => (ctorStep ("ctorimg" :: r)).getD "bad-op"
+  | "ctordisc" :: r => (ctorStep ("ctordisc" :: r)).getD "bad-op"
+  | "defgeom" :: r => (ctorStep ("defgeom" :: r)).getD "bad-op"
   | ["klhist", cs, τ, nm, n0, ops] =>
     match parseVec cs, parseRat τ, parseOptNat nm, parseOptNat n0 with
     | some c, some τ, some nm, some n0 =>
